@@ -113,6 +113,15 @@ fn stream_a(src: &mut Src, ctx: &mut Ctx) -> Outcome {
     let subj_spec = small_subject(src);
     let k = src.weighted(&[4, 8, 18, 22, 20, 16, 7, 5]);
     let mut specs: Vec<Spec> = (0..k).map(|_| small_assertion_slot(src)).collect();
+    // sometimes the same (predicate, object) is present in two renditions: plain and carrying a note / salt
+    // (different digests, hence different assertions of the set)
+    if k >= 1 && src.chance(70) {
+        if let Some(Spec::Assertion(p, o)) = specs.iter().find(|s| matches!(s, Spec::Assertion(..))).cloned() {
+            let plain = Spec::Assertion(p.clone(), o.clone());
+            let note = Spec::Assertion(Box::new(Spec::Known(4)), Box::new(Spec::Leaf(LeafSpec::Str(format!("rendition {}", src.below(3))))));
+            specs.push(Spec::Node(Box::new(plain), vec![note]));
+        }
+    }
     // distinct digests (the multiset's support); repetitions are inserted explicitly below
     let full = gen::normalize(Spec::Node(Box::new(subj_spec.clone()), specs.clone()));
     if let Spec::Node(_, a) = &full {
@@ -213,8 +222,13 @@ fn stream_a(src: &mut Src, ctx: &mut Ctx) -> Outcome {
             }
             idx
         };
+        let mut remaining: Vec<usize> = (0..k).collect();
         for i in order {
             e = nopanic!(ctx, e.remove_assertion(built[i].clone()), "remove-all", "C07/remove-all");
+            remaining.retain(|x| *x != i);
+            // after every single removal: exactly the other assertions are left (same bytes as building them afresh)
+            let expect = if remaining.is_empty() { subject.clone() } else { add_in_order(&subject, &built, &remaining, 0) };
+            check!(ctx, e.to_cbor_data() == expect.to_cbor_data(), "remove-one", "C07/remove-one", "removing assertion #{} of {} did not leave exactly the other assertions", i, model.show());
         }
         check!(ctx, e.to_cbor_data() == subject.to_cbor_data(), "remove-all", "C07/remove-all", "removing every assertion of {} did not yield the bare subject", model.show());
         check!(ctx, !e.is_node(), "remove-all", "C07/remove-all", "removing every assertion left a node");
